@@ -88,3 +88,23 @@ Proof.
   apply sim_observe. apply history_independent; [apply incr_NoDup; exact Hincr|].
   repeat split; assumption.
 Qed.
+
+(* The stop test is applied to EVERY pass, the first included: if the first recorded difference is below tol the driver
+   returns the first-pass fit untouched (one history entry, weights and fit data not updated), whichever strategy runs.
+   Hence data that one pass reproduces (C19_poly_exact_partial) are reproduced by the full iteration with default
+   tol / max_iter: the robust re-weighting never sees the rounding-noise residuals of an exact fit. *)
+Theorem first_pass_exit (R : Num) (Coef D : Type) local_fit predict reldiff (below : D -> bool) update garbage
+    (x : list (T R)) vander ncoef (N : Z) windows fits skips (conserve : bool) (max_iter : nat) (s : dstate R Coef D) :
+  let p := pass R Coef local_fit predict x vander ncoef N windows fits skips (mode_of conserve O) (garbage O)
+             (d_y _ _ _ s) (d_w _ _ _ s) (d_coefs _ _ _ s) (d_cache _ _ _ s) in
+  let b := fst (fst p) in
+  below (reldiff (d_base _ _ _ s) b) = true ->
+  let r := drive R Coef local_fit predict x vander ncoef N windows fits skips D reldiff below update garbage conserve (S max_iter) O s in
+  d_base _ _ _ r = b /\ d_coefs _ _ _ r = snd (fst p) /\ d_w _ _ _ r = d_w _ _ _ s /\ d_y _ _ _ r = d_y _ _ _ s /\
+  d_hist _ _ _ r = reldiff (d_base _ _ _ s) b :: d_hist _ _ _ s.
+Proof.
+  cbv zeta. intros H. cbn [drive]. unfold mode_of in *.
+  destruct (pass R Coef local_fit predict x vander ncoef N windows fits skips (if conserve then 0%nat else 1%nat) (garbage O)
+              (d_y _ _ _ s) (d_w _ _ _ s) (d_coefs _ _ _ s) (d_cache _ _ _ s)) as [[b cf] ch].
+  cbn [fst snd] in *. rewrite H. cbn. repeat split.
+Qed.
